@@ -5,6 +5,7 @@ import (
 	"math"
 	"math/big"
 	"math/rand"
+	"strings"
 
 	"verifharness/lib"
 )
@@ -229,6 +230,51 @@ func genCases(c *lib.Ctx, rng *rand.Rand) []*c20in {
 			}
 		}
 		ins = append(ins, in)
+	}
+	// white lists whose blocks nest / overlap / touch / repeat, in every order: membership is the
+	// union of the blocks whatever the order; probe addresses in every region
+	nestFamilies := []struct {
+		blocks []string
+		probes []string
+	}{
+		{[]string{"10.0.0.0/8", "10.0.0.0/16", "10.0.0.0/24", "10.0.0.0/32"},
+			[]string{"10.0.0.0", "10.0.0.1", "10.0.0.255", "10.0.1.0", "10.0.255.255", "10.1.0.0", "10.9.8.7", "10.255.255.255", "11.0.0.0", "9.255.255.255"}},
+		{[]string{"192.168.0.0/16", "192.168.0.0/32", "192.168.5.0/24", "192.168.4.0/23"},
+			[]string{"192.168.0.0", "192.168.0.1", "192.168.5.11", "192.168.4.9", "192.168.6.0", "192.168.200.1", "192.169.0.0", "192.167.255.255"}},
+		{[]string{"10.0.0.0/24", "10.0.1.0/24", "10.0.0.0/23", "10.0.0.0/24"}, // adjacent, their union, a duplicate
+			[]string{"10.0.0.7", "10.0.1.7", "10.0.2.7", "9.255.255.255"}},
+		{[]string{"2001:db8::/32", "2001:db8::/48", "2001:db8::/64", "2001:db8::/128"},
+			[]string{"2001:db8::", "2001:db8::1", "2001:db8:0:0:1::", "2001:db8:0:1::", "2001:db8:1::", "2001:db8:ffff:ffff::1", "2001:db9::", "2001:db7:ffff::1"}},
+		{[]string{"0.0.0.0/0", "127.0.0.0/8", "127.0.0.1/32"}, []string{"127.0.0.1", "127.9.9.9", "8.8.8.8", "::1"}},
+		{[]string{"::/0", "fe80::/10", "::1/128", "10.0.0.0/8"}, []string{"::1", "fe80::1", "2a00::1", "10.9.8.7", "11.0.0.1", "::ffff:10.9.8.7"}},
+	}
+	for _, nf := range nestFamilies {
+		var sets [][]string
+		for i := range nf.blocks {
+			for j := range nf.blocks {
+				if i != j {
+					sets = append(sets, []string{nf.blocks[i], nf.blocks[j]})
+				}
+			}
+		}
+		for k := 0; k < 6; k++ {
+			perm := rng.Perm(len(nf.blocks))
+			n := 3 + rng.Intn(len(nf.blocks)-2)
+			var set []string
+			for _, pi := range perm[:n] {
+				set = append(set, nf.blocks[pi])
+			}
+			sets = append(sets, set)
+		}
+		for _, set := range sets {
+			in := &c20in{Kind: "whitelist-nested", Max: 1, Interval: 1_000_000_000, StartSec: baseStart, WhiteList: strings.Join(set, ",")}
+			for _, a := range nf.probes {
+				for k := 0; k < 3; k++ {
+					in.Ops = append(in.Ops, c20op{Kind: "inc", Sec: baseStart, Nsec: int64(k), IP: a})
+				}
+			}
+			ins = append(ins, in)
+		}
 	}
 	for _, wl := range badWlPool {
 		ins = append(ins, &c20in{Kind: "bad-cidr", Max: 1, Interval: 1, StartSec: baseStart, WhiteList: wl})
